@@ -11,7 +11,7 @@
    localised to UTC): every statement about `write` holds for both.          *)
 From Coq Require Import String ZArith List.
 From V Require Import Base.UString Model.Calendar Model.Timestamp Spec.TimestampSpec
-  Proofs.TimestampFacts Proofs.C15Proofs Proofs.CalendarFacts.
+  Proofs.TimestampFacts Proofs.C15Proofs Proofs.CalendarFacts Proofs.C15Audit.
 Import ListNotations.
 Open Scope list_scope. Open Scope Z_scope.
 
@@ -21,11 +21,19 @@ Theorem civil_roundtrip : forall n,
 Proof. exact civil_roundtrip_lemma. Qed.
 Print Assumptions civil_roundtrip.
 
-(* truncation never rounds: the truncated instant is the largest multiple of the unit not after t *)
-Theorem floor_le : forall p c t,
+(* ... and it is the Gregorian calendar: the day number agrees with an independent closed form (the Julian
+   Day Number of Fliegel and Van Flandern, truncating division) on every date of years 1..9999 *)
+Theorem calendar_is_gregorian : forall y m d, 1 <= y <= 9999 -> 1 <= m <= 12 ->
+  days_of_civil y m d = jdn y m d - jdn_epoch.
+Proof. exact days_of_civil_is_jdn. Qed.
+Print Assumptions calendar_is_gregorian.
+
+(* SPEC-SIDE fact (about floor_to of Spec/TimestampSpec.v, not about the model's format; fmt_denotes ties
+   the two): truncation never rounds -- the truncated instant is the largest multiple of the unit not after t *)
+Theorem floor_is_truncation : forall p c t,
   floor_to p c t <= t < floor_to p c t + unit_of p c /\ (floor_to p c t) mod unit_of p c = 0.
 Proof. exact floor_le_lemma. Qed.
-Print Assumptions floor_le.
+Print Assumptions floor_is_truncation.
 
 (* canonical form YYYY-MM-DDTHH:MM:SS[.d+]Z with a four-digit year *)
 Theorem fmt_canonical : forall p c t, in_range t = true -> is_canonical (format Pad4 p c t) = true.
@@ -63,12 +71,12 @@ Theorem fmt_fixpoint : forall nm p c t, in_range t = true ->
 Proof. exact fmt_fixpoint_lemma. Qed.
 Print Assumptions fmt_fixpoint.
 
-(* later instants are never written as earlier ones: on truncated instants ... *)
-Theorem fmt_monotone : forall p c t1 t2, t1 <= t2 -> floor_to p c t1 <= floor_to p c t2.
+(* SPEC-SIDE fact (floor_to is monotone); the statement about the model's texts is fmt_order below *)
+Theorem floor_monotone : forall p c t1 t2, t1 <= t2 -> floor_to p c t1 <= floor_to p c t2.
 Proof. exact floor_monotone_lemma. Qed.
-Print Assumptions fmt_monotone.
+Print Assumptions floor_monotone.
 
-(* ... and on what the written texts denote *)
+(* later instants are never written as earlier ones: what the written texts denote is ordered like the inputs *)
 Theorem fmt_order : forall p c t1 t2 rd1 rd2 x1 x2, in_range t1 = true -> in_range t2 = true -> t1 <= t2 ->
   spec_read (format Pad4 p c t1) = Some rd1 -> spec_read (format Pad4 p c t2) = Some rd2 ->
   denotes rd1 x1 -> denotes rd2 x2 -> x1 <= x2.
@@ -120,12 +128,50 @@ Theorem write_string_rejected : forall nm p c s, parse_strptime s = None ->
 Proof. exact write_string_rejected_lemma. Qed.
 Print Assumptions write_string_rejected.
 
+(* a value cleaned at (p, c) and written at (p', c') -- a STIXdatetime that lost or changed its precision
+   attributes, or one re-used for another property: the text is that of the instant truncated at (p, c), read
+   strictly it denotes that instant truncated again at (p', c'): still a floor of the input *)
+Theorem write_as_aware : forall nm p c p' c' l o, in_range (l - o) = true -> o mod unit_of (sp p) (sc c) = 0 ->
+  write_as nm Pad4 p c p' c' (InDatetime l (Some o)) = Ok (format Pad4 p' c' (floor_to (sp p) (sc c) (l - o))).
+Proof. exact write_as_aware_lemma. Qed.
+Print Assumptions write_as_aware.
+
+Theorem write_as_denotes : forall nm p c p' c' l o, in_range (l - o) = true -> o mod unit_of (sp p) (sc c) = 0 ->
+  exists txt rd, write_as nm Pad4 p c p' c' (InDatetime l (Some o)) = Ok txt /\ spec_read txt = Some rd /\
+                 denotes rd (floor_to (sp p') (sc c') (floor_to (sp p) (sc c) (l - o))) /\
+                 floor_to (sp p') (sc c') (floor_to (sp p) (sc c) (l - o)) <= l - o.
+Proof. exact write_as_denotes_lemma. Qed.
+Print Assumptions write_as_denotes.
+
+Theorem reparse_string : forall nm p c p' c' s t, parse_strptime s = Some t ->
+  write nm Pad4 p' c' (reparse nm p c (InStr s)) = Ok (format Pad4 p' c' (floor_to (sp p) (sc c) t)).
+Proof. exact reparse_string_lemma. Qed.
+Print Assumptions reparse_string.
+
 (* the offset hypothesis of write_aware cannot be dropped (an offset of half a second) *)
 Theorem subsecond_offset_excluded :
   exists l o, in_range (l - o) = true /\ forall nm,
     write nm Pad4 PSecond CExact (InDatetime l (Some o)) <> Ok (format Pad4 PSecond CExact (l - o)).
 Proof. exact subsecond_offset_counterexample. Qed.
 Print Assumptions subsecond_offset_excluded.
+
+(* calendar anchors: known dates (day 0 = 0001-01-01, a Monday) *)
+Example anchor_unix_epoch : days_of_civil 1970 1 1 = 719162 /\ 719162 mod 7 = 3.       (* a Thursday *)
+Proof. split; reflexivity. Qed.
+Example anchor_1900_not_leap : valid_date 1900 2 29 = false /\ valid_date 1900 2 28 = true.
+Proof. split; reflexivity. Qed.
+Example anchor_2000_leap : valid_date 2000 2 29 = true /\ days_of_civil 2000 3 1 = days_of_civil 2000 2 28 + 2.
+Proof. split; reflexivity. Qed.
+Example anchor_1600_leap : valid_date 1600 2 29 = true /\ valid_date 1700 2 29 = false.
+Proof. split; reflexivity. Qed.
+Example anchor_2000_03_01 : days_of_civil 2000 3 1 = 730179 /\ civil_of_days 730179 = (2000, 3, 1).
+Proof. split; reflexivity. Qed.
+Example anchor_end_of_range : days_of_civil 10000 1 1 = max_days /\ civil_of_days (max_days - 1) = (9999, 12, 31).
+Proof. split; reflexivity. Qed.
+Example anchor_gregorian_reform_day : days_of_civil 1582 10 15 = 577735 /\ 577735 mod 7 = 4.   (* a Friday *)
+Proof. split; reflexivity. Qed.
+Example anchor_y2038 : instant_of 2038 1 19 3 14 7 0 - instant_of 1970 1 1 0 0 0 0 = 2147483647 * 1000000.
+Proof. reflexivity. Qed.
 
 (* hypotheses are satisfiable; the model computes *)
 Example ex_in_range : in_range (dt 2016 2 29 23 59 59 999999) = true.
